@@ -152,6 +152,34 @@ pub fn exprs(tier: Tier) -> Vec<E> {
             }
         }
     }
+    // stacked unary operators beyond the grammar's limit of 4 (printing must re-parenthesise)
+    {
+        let nx = |k: usize, mut e: E, neg: bool| {
+            for _ in 0..k {
+                e = if neg { E::Neg(b(e)) } else { E::not(e) };
+            }
+            e
+        };
+        let base_b = [E::Var(Var::Principal), E::bin(BinOp::Neq, E::Long(1), E::Long(2)), E::bin(BinOp::Gt, E::attr(E::Var(Var::Context), "n"), E::Long(0)), E::Bool(true), E::has(E::Var(Var::Context), "n")];
+        let base_n = [E::Long(1), E::Long(-1), E::attr(E::Var(Var::Context), "n"), E::bin(BinOp::Sub, E::Long(1), E::Long(2)), E::Long(i64::MIN)];
+        for k in 1..=9 {
+            for x in &base_b {
+                out.push(nx(k, x.clone(), false));
+                out.push(E::and(nx(k, x.clone(), false), E::Bool(true)));
+            }
+            for x in &base_n {
+                out.push(nx(k, x.clone(), true));
+                out.push(E::bin(BinOp::Eq, nx(k, x.clone(), true), E::Long(1)));
+                out.push(E::bin(BinOp::Sub, E::Long(0), nx(k, x.clone(), true)));
+            }
+            // alternating stacks
+            let mut e = E::Long(1);
+            for i in 0..k {
+                e = if i % 2 == 0 { E::Neg(b(e)) } else { E::bin(BinOp::Mul, E::Neg(b(e)), E::Long(1)) };
+            }
+            out.push(e);
+        }
+    }
     // unary minus and boundary literals
     let neg = |e: E| E::Neg(b(e));
     let lits = [0i64, 1, -1, i64::MAX, i64::MIN, i64::MIN + 1];
@@ -269,7 +297,10 @@ pub fn clause_forms() -> Vec<Vec<(bool, E)>> {
         vec![(true, a.clone()), (true, c.clone())],
         vec![(true, a.clone()), (false, c.clone())],
         vec![(false, c.clone()), (true, a.clone())],
-        vec![(false, a), (false, c)],
+        vec![(false, a.clone()), (false, c.clone())],
+        // `unless` adds one more negation on top of four stacked ones
+        vec![(false, E::not(E::not(E::not(E::not(c.clone())))))],
+        vec![(true, E::not(E::not(E::not(E::not(E::bin(BinOp::Neq, a, c)))))), (false, E::Bool(false))],
     ]
 }
 
